@@ -11,7 +11,7 @@ git -C "$dir" diff --stat | tail -1
 (cd "$dir" && /venv/bin/python -m pytest -q -p no:cacheprovider 2>&1 | tail -1)
 (cd "$dir" && timeout 120 /venv/bin/python "$src/demo.py" >/dev/null 2>&1); echo "demo with change: exit=$?"
 for c in "$@"; do
-  VERIF_REPO="$dir" timeout 1500 ./check "$c" --tier quick > /tmp/mut/seed_$name.$c.out 2>&1
+  VERIF_EVIDENCE_DIR=/tmp/mut/evidence VERIF_REPO="$dir" timeout 1500 ./check "$c" --tier quick > /tmp/mut/seed_$name.$c.out 2>&1
   echo "$c exit=$? $(grep -c '^VIOLATION' /tmp/mut/seed_$name.$c.out) violations; $(grep -m1 'sig=' /tmp/mut/seed_$name.$c.out | cut -c1-150)"
 done
 git -C /repo worktree remove --force "$dir"
